@@ -1188,6 +1188,12 @@ COMPLEX_PROBES = [
     ("mul", ("imag", ("ptw", "sin", [], ("var", 0))), ("real", ("var", 1))),
     ("sum", ("mul", ("imag", ("mul", ("var", 0), ("var", 1))), ("conj", ("var", 0)))),
     ("add", ("imag", ("ptw", "tanh", [], ("mulc", [0.7 - 0.2j, 0.3 + 0.5j], ("var", 1)))), ("real", ("ptw", "exp", [], ("var", 0)))),
+    # complex scalars on either side of the R-linear operators (must not be commuted across them)
+    ("scale", 0.7 - 0.2j, ("real", ("ptw", "exp", [], ("var", 0)))),
+    ("scale", -0.3 + 1.1j, ("imag", ("ptw", "sin", [], ("var", 1)))),
+    ("conj", ("scale", 0.5 + 0.5j, ("ptw", "tanh", [], ("var", 0)))),
+    ("real", ("scale", 1.2 - 0.4j, ("ptw", "exp", [], ("mul", ("var", 0), ("var", 1))))),
+    ("ptw", "sin", [], ("scale", 0.6 + 0.8j, ("real", ("scale", 0.2 - 1.0j, ("ptw", "exp", [], ("var", 1)))))),
 ]
 
 
@@ -1240,7 +1246,8 @@ class FloatGen:
         if c == 4:
             return ("mulc", [self.rnd() for _ in range(m)], self.gen(depth - 1, shp))
         if c == 5:
-            return ("scale", float(rng.uniform(-2, 2)), self.gen(depth - 1, shp))
+            fac = complex(rng.uniform(-2, 2), rng.uniform(-2, 2)) if (self.cplx and rng.random() < 0.6) else float(rng.uniform(-2, 2))
+            return ("scale", fac, self.gen(depth - 1, shp))
         if c in (6, 9):
             sub = self.gen(depth - 1, shp)
             v = self.val(sub)
